@@ -23,6 +23,7 @@ func (fr *Frame) execInstr(ins ssa.Instruction) {
 		t := elemOf(ins.Type())
 		addr := fr.alloc(t, "1")
 		fr.zeroRange(t, addr, "1")
+		fr.noteAlloc(intLit(int64(allocSlots(t))))
 		fr.set(ins, &Val{T: ins.Type(), L: []string{addr}})
 	case *ssa.BinOp:
 		fr.set(ins, fr.binop(ins, ins.Op, fr.get(ins.X), fr.get(ins.Y), ins.Type()))
